@@ -516,6 +516,8 @@ func runC13(c *Ctx) {
 		c.verdict(c.fnKey(body)+":no-orphan-goroutine", body.Pos(), good, "the body returns only after the goroutines it started have completed", "the task body can return while a goroutine it started is still running (e.g. it gives up on ctx.Done()): after the silence period the manager re-runs the body while the orphan still reads into the shared buffer: "+detail)
 	}
 
+	clauseCloneReadsThroughGivenReader(c, "C13.i")
+	clauseFlightJoinedBeforeReturn(c, "C13.j")
 	c.clause("C13.g", "T1", "an attempt reports success only after the body completed; InvokeBackgroundTask returns only after a successful attempt", 2)
 	for _, a := range attempts {
 		if a.isDone == nil {
